@@ -252,6 +252,33 @@ def drift(rng, tier):
                 bound=f'{n_ops} operations per (group, dtype)', failures=fails[:8], samples=samples[:4])
 
 
+@bounded('C03.copied_operands', functions=[f'{LT}:SO3Type.Mul', f'{LT}:SE3Type.Mul', f'{LT}:Sim3Type.Mul', f'{LT}:RxSO3Type.Mul'])
+def copied_operands(rng, tier):
+    """real code: group elements that went through copy.deepcopy / pickle / torch.save+load (their .ltype is then a fresh object of the type's class,
+    not the module-level one) are group elements all the same: products with them, inverses and the identity law hold"""
+    import torch, pypose as pp, copy, pickle, io
+    d = torch.float64
+    fails = []; evals = 0
+    def via_save(z):
+        buf = io.BytesIO(); torch.save(z, buf); buf.seek(0)
+        return torch.load(buf, weights_only=False)
+    for gname in ('SO3', 'SE3', 'RxSO3', 'Sim3'):
+        X = getattr(pp, 'randn_' + gname)(2, dtype=d); Y = getattr(pp, 'randn_' + gname)(2, dtype=d)
+        want = (X @ Y).tensor(); E = getattr(pp, 'identity_' + gname)(2, dtype=d)
+        for how, cp in (('deepcopy', copy.deepcopy), ('pickle', lambda z: pickle.loads(pickle.dumps(z))), ('torch.save/load', via_save)):
+            try:
+                Yc = cp(Y)
+                checks = (('X @ Yc', (X @ Yc).tensor(), want), ('Yc @ X', (Yc @ X).tensor(), (Y @ X).tensor()),
+                          ('Yc @ Yc.Inv()', (Yc @ Yc.Inv()).tensor(), (Y @ Y.Inv()).tensor()), ('E @ Yc', (E @ Yc).tensor(), Y.tensor()))
+                for nm, got, ref in checks:
+                    evals += 1
+                    if got.shape != ref.shape or not torch.allclose(got, ref, atol=1e-12):
+                        fails.append(dict(clause='product_with_a_copied_element', signature=f'{gname}/{how}/{nm}'))
+            except Exception as e:
+                fails.append(dict(clause='product_with_a_copied_element_raises', signature=f'{gname}/{how}', error=f'{type(e).__name__}: {e}'[:120]))
+    return dict(evaluations=evals, distinct_nontrivial=evals, rule='4 group types x 3 ways of copying x 4 products', bound='batch of 2, float64', failures=fails[:8], samples=[])
+
+
 # retractions (Retr / add_ / a.Exp() @ X) hand their increment to Exp: "results of retractions remain valid group elements (unit quaternion,
 # positive scale) to round-off" rests on Exp being accurate to round-off in BOTH dtypes over the property's range of log-scales (a scale
 # computed as 1 + expm1(sigma) is exact in real arithmetic and loses all its digits for sigma << 0): the float stand-in of c01_exp.py is
